@@ -40,7 +40,8 @@ def c17(tier, seed):
         f_lo, f_other = 0.5, 0.3
     else:
         models = [{"module": "AnyData", "tag": "boxes3", "invariants": AINV, "constants": aconsts(boxes=3, vals=(1,), moves=4)},
-                  {"module": "AnyData", "tag": "boxes2", "invariants": AINV, "constants": aconsts(boxes=2, vals=(1, 2), moves=4)}]
+                  {"module": "AnyData", "tag": "boxes2", "invariants": AINV, "constants": aconsts(boxes=2, vals=(1, 2), moves=4)},
+                  {"module": "AnyData", "tag": "boxes3-vals2", "invariants": AINV, "constants": aconsts(boxes=3, vals=(1, 2), moves=2), "fraction": 0.25}]
         f_lo, f_other = 0.3, 0.15
     top = CAP + 17
     worlds = [
